@@ -90,6 +90,8 @@ pub struct SnapshotInfo {
 	/// per channel: latest update id handed to persistence when the snapshot was taken
 	pub latest_ids: BTreeMap<ChannelId, u64>,
 	pub open_channels: BTreeSet<ChannelId>,
+	/// payments whose PaymentSent the manager lineage this snapshot belongs to had handled
+	pub sent: BTreeSet<[u8; 32]>,
 }
 
 pub struct RestartOracle {
@@ -112,6 +114,11 @@ pub struct RestartOracle {
 	commit_deliveries: BTreeMap<(usize, ChannelId), Vec<u64>>,
 	/// (node, chan) -> ids of updates carrying a holder commitment, in hand-over order
 	holder_updates: BTreeMap<(usize, ChannelId), Vec<u64>>,
+	/// (node, chan): the node has sent an update_fail_htlc / update_fail_malformed_htlc on that channel
+	fails_emitted: BTreeSet<(usize, ChannelId)>,
+	/// per node: payments whose PaymentSent was handled by the running manager or an ancestor of it (a
+	/// restart from snapshot S continues the lineage of S, not that of the manager that crashed)
+	sent_lineage: BTreeMap<usize, BTreeSet<[u8; 32]>>,
 }
 
 impl RestartOracle {
@@ -129,6 +136,8 @@ impl RestartOracle {
 			claimable_at: BTreeMap::new(),
 			commit_deliveries: BTreeMap::new(),
 			holder_updates: BTreeMap::new(),
+			fails_emitted: BTreeSet::new(),
+			sent_lineage: BTreeMap::new(),
 		}
 	}
 
@@ -144,6 +153,7 @@ impl RestartOracle {
 		for d in sim.w.nodes[node].node.list_channels() {
 			info.open_channels.insert(d.channel_id);
 		}
+		info.sent = self.sent_lineage.get(&node).cloned().unwrap_or_default();
 		self.snap_info.insert((node, *step), info);
 	}
 
@@ -153,6 +163,9 @@ impl RestartOracle {
 			match ev {
 				M::S(SEvent::Restart { node, snapshot_step, monitor_ids, ok, detail }) => {
 					self.last_restart_snapshot.insert(node, snapshot_step);
+					if let Some(info) = self.snap_info.get(&(node, snapshot_step)) {
+						self.sent_lineage.insert(node, info.sent.clone());
+					}
 					if !ok {
 						return Err(fail("restart-deserialization", format!("node {} could not be restarted from legally persisted state: {}", node, detail)));
 					}
@@ -193,6 +206,12 @@ impl RestartOracle {
 				M::S(SEvent::Deliver { to, wire: Wire::Commit(m), .. }) => {
 					self.commit_deliveries.entry((to, m.channel_id)).or_default().push(at);
 				},
+				M::S(SEvent::Emit { from, wire: Wire::Fail(m), .. }) => {
+					self.fails_emitted.insert((from, m.channel_id));
+				},
+				M::S(SEvent::Emit { from, wire: Wire::FailMalformed(m), .. }) => {
+					self.fails_emitted.insert((from, m.channel_id));
+				},
 				M::H(HEvent::PersistUpdate { node, chan, update_id: Some(id), steps, .. }) => {
 					if steps.iter().any(|s| s.starts_with("LatestHolderCommitment")) {
 						self.holder_updates.entry((node, chan)).or_default().push(id);
@@ -217,6 +236,7 @@ impl RestartOracle {
 						e.0 += 1;
 						self.stats.payments_sent += 1;
 						self.sent_at.entry((node, payment_hash.0)).or_insert(at);
+						self.sent_lineage.entry(node).or_default().insert(payment_hash.0);
 						if e.1 > 0 {
 							return Err(fail("contradictory-terminal-events", format!("node {} reported PaymentSent after PaymentFailed for payment {}", node, payment_hash)));
 						}
@@ -233,10 +253,19 @@ impl RestartOracle {
 						self.stats.payments_failed += 1;
 						if e.0 > 0 {
 							// exact signature of the documented limitation: the node restarted from a manager written
-							// before it saw PaymentSent, and the monitor had already forgotten the resolved HTLC
+							// before it saw PaymentSent, and the monitor it restarted from had already forgotten the
+							// resolved HTLC (it was in no current counterparty commitment any more). A monitor that
+							// still tracks the HTLC must also still know its preimage, so that case is not excused.
 							let sent = self.sent_at.get(&(node, payment_hash.0)).cloned().unwrap_or(0);
-							let stale = self.last_restart_snapshot.get(&node).map(|s| *s < sent).unwrap_or(false);
-							let key = if stale { "contradictory-terminal-events/failed-after-sent/manager-snapshot-predates-sent" } else { "contradictory-terminal-events/failed-after-sent" };
+							let stale = self.last_restart_snapshot.contains_key(&node) && !self.sent_lineage.get(&node).map(|l| l.contains(&payment_hash.0)).unwrap_or(false);
+							let tracked = sim.monitor_htlcs_at_restart.get(&node).map(|v| v.iter().any(|(h, _)| *h == payment_hash.0)).unwrap_or(false);
+							let key = if stale && !tracked {
+								"contradictory-terminal-events/failed-after-sent/manager-snapshot-predates-sent"
+							} else if stale {
+								"contradictory-terminal-events/failed-after-sent/monitor-still-tracked-the-htlc"
+							} else {
+								"contradictory-terminal-events/failed-after-sent"
+							};
 							return Err(fail("contradictory-terminal-events", format!("node {} reported PaymentFailed after PaymentSent for payment {} (PaymentSent at step {}, restarted from manager snapshot of step {:?})", node, payment_hash, sent, self.last_restart_snapshot.get(&node))).with_key(key));
 						}
 						// truthful failure: no part may still be pending. Decidable for a direct (one-hop) payment
@@ -245,7 +274,10 @@ impl RestartOracle {
 						if let Some(p) = sim.pays.iter().find(|p| p.hash == *payment_hash && p.from == node) {
 							let live = p.path_chans.len() == 1
 								&& p.claimable_seen && (p.state == PayState::Claimable || p.state == PayState::ClaimRequested)
-								&& sim.chain.height() + 2 < p.cltv_expiry;
+								&& sim.chain.height() + 2 < p.cltv_expiry
+								// the recipient node fails a claimable HTLC back by itself once its claim deadline passes
+								// (or after a restart lost a claim request): any fail it sent on that channel may be this one
+								&& !self.fails_emitted.contains(&(p.to, sim.chans[p.path_chans[0]].id));
 							if live {
 								let claimable_at = self.claimable_at.get(&(p.to, payment_hash.0)).cloned().unwrap_or(0);
 								let stale = self.last_restart_snapshot.get(&node).map(|s| *s < claimable_at).unwrap_or(false);
